@@ -38,6 +38,40 @@ CHECKS["C19"] = dict(
          "refine, __eq__ and Spline.derivative are enumerated over finite alphabets.",
     note="Trusted: fractions.Fraction, numpy; intervals from a fixed grid, not all floats; spacing tolerance 4 eps * max(|a|,|b|).")
 
+CHECKS["C04"] = dict(
+    category="model_checking", design_ref="DESIGN.md §3 C04",
+    technique="explicit-state BFS of the real HSpace under refine() events (every non-empty subset of active cells below a "
+              "level bound, all levels at once) to closure; declarative activation model on every transition, state "
+              "invariants on every distinct state",
+    text="All refinement forests of the rows 1D k=3/L=2, 1D k=2/L=3, 2D 2x1/L=2, 2D 2x2/L=1 (quick) plus 1D k=4/L=2, 1D k=3/L=3, "
+         "2D 2x2/L=2, 3D octree (thorough) are reached by BFS for degrees 1-4, disparity 1,2,3,inf and both marking "
+         "variants; every transition is compared with the declarative model and every state with tiling, activation, "
+         "ordering, independence, (T)HB representation, transform, disparity and incidence/support oracles.",
+    note="Trusted: ref/hmodel.py (declarative cell/function model, exact knot insertion), numpy rank; uniform dyadic meshes "
+         "with <=4 coarse cells per axis; big rows restrict marks to subsets of size <=1-2 plus whole levels (stated in evidence).")
+CHECKS["C10"] = dict(
+    category="model_checking", design_ref="DESIGN.md §3 C10",
+    technique="bounded-exhaustive enumeration of all ordered index subsets (n<=4/5) x value/rhs/matrix forms x elim_rows with "
+              "integer payloads and an exact rational dictionary-model solve; all faces x data kinds x geometries for the "
+              "boundary-condition routines",
+    text="RestrictedLinearSystem is checked on every ordered subset of dofs with exact Fraction solves (prescribed values, kept "
+         "equations, restrict/extend/restrict_matrix consistency on unit vectors); compute_dirichlet_bc(s), combine_bcs, "
+         "slice/boundary index helpers and compute_initial_condition_01 are enumerated over all faces of 1D-3D spaces, data "
+         "kinds and geometries against an independent B-spline evaluation.",
+    note="Trusted: fractions.Fraction Gaussian elimination, ref/dirichlet.py Cox-de Boor; geometry evaluation (geo.grid_eval) is "
+         "input data here and decided by C07; n<=5 dofs, 6 knot vectors, 4 geometries.")
+CHECKS["C12"] = dict(
+    category="model_checking", design_ref="DESIGN.md §3 C12",
+    technique="complete enumeration of rooted-tree order conditions (order<=4) for all 12 shipped tableaux; stage equations on "
+              "a finite (M, L, c, tau) alphabet with unit start vectors against exact rational stage solves; drivers explored "
+              "as state machines under every scripted error-ratio / residual sequence up to depth 3-4",
+    text="All 168 order conditions, ~16k-29k real dirk_step/rosenbrock_step calls compared with exact Fraction stage solutions, "
+         "and every scripted answer sequence over {0,0.5,1,1+1e-12,10,1e6,NoConvergence}^k (k<=3 quick, 4 thorough) for the "
+         "adaptive controller, all (t0,t_end,tau) grid points for the constant-step driver and scripted residual sequences "
+         "for newton.",
+    note="Trusted: ref/rk.py order conditions (self-tested against empirical convergence orders in the thorough tier), Fraction "
+         "arithmetic; coefficient tolerance 1e-9 (tableaux carry 10-16 digits); known findings: dirk34 tableau, dirk_step Newton atol.")
+
 NOT_YET = {}
 
 
